@@ -215,7 +215,7 @@ def body_factory(ctx):
             if case["cov"]:
                 cov_ = np.asarray(data.rv_err.value)
                 prod = np.asarray(iv.value) @ cov_
-                if np.shape(iv.value) != cov_.shape or np.max(np.abs(prod - np.eye(len(cov_)))) > 1e-8 \
+                if np.shape(iv.value) != cov_.shape or not (np.max(np.abs(prod - np.eye(len(cov_)))) <= 1e-8) \
                         or not iv.unit.is_equivalent(1 / ref["eu"] ** 2):
                     raise Violation("ivar is not the inverse covariance (ivar @ cov != identity)",
                                     max_dev=float(np.max(np.abs(prod - np.eye(len(cov_))))) if np.shape(iv.value) == cov_.shape else None,
